@@ -588,6 +588,7 @@ Section Series.
       cbn [gpow]. apply (RT gp_congr); auto with wfdb. reflexivity.
   Qed.
 
+  Section Pow.
   Variables (invf sqrtf : mv R -> res (mv R)).
   (* x ** 0 = 1 *)
   Theorem pow_zero x : pow_model SO invf sqrtf A x (PInt 0) = Ok one.
@@ -629,6 +630,7 @@ Section Series.
   (* a float exponent other than 0, 0.5, -0.5 raises TypeError (after the inverse for negative ones) *)
   Theorem pow_float x : pow_model SO invf sqrtf A x PFloatPos = Err EType.
   Proof. reflexivity. Qed.
+  End Pow.
 
   (* x^(m+n) = x^m * x^n  (associativity of the geometric product) *)
   Theorem pow_add x m n : wf x -> gpow x (m + n) == gp (gpow x m) (gpow x n).
@@ -923,6 +925,7 @@ Section Series.
   Qed.
 
   Section NormModel.
+  Variable invf : mv R -> res (mv R).
   Variable F : mv R -> mv R.
   Hypothesis HF : filter_ok F.
   (* when the generated normsq stores the scalar blade only, norm() takes the scalar branch of sqrt *)
@@ -1016,8 +1019,8 @@ Section Series.
     rewrite map_map, cf_E by assumption.
     induction n as [|n IH].
     - cbn [Nat.mul Nat.add seq map Sparse.rsum]. unfold ev, od. cbn [seq map Sparse.rsum].
-      change 0%nat with (2 * 0)%nat at 1. rewrite cf_pterm_even.
-      change 1%nat with (2 * 0 + 1)%nat at 1. rewrite cf_pterm_odd. ring.
+      change (pterm 0) with (pterm (2 * 0)). rewrite cf_pterm_even.
+      change (pterm 1) with (pterm (2 * 0 + 1)). rewrite cf_pterm_odd. ring.
     - replace (2 * S n + 2)%nat with ((2 * n + 2) + 2)%nat by lia.
       rewrite seq_app, map_app, (RT rsum_app), IH. cbn [seq map Sparse.rsum Nat.add].
       replace (2 * n + 2)%nat with (2 * S n)%nat by lia. rewrite cf_pterm_even.
@@ -1081,8 +1084,8 @@ Section Series.
     cbn [mv_truthy andb keys map fst forallb] in H. apply andb_true_iff in H. destruct H as [Hk Hrest].
     apply Z.eqb_eq, Bits.popcount_eq_0 in Hk. subst k.
     destruct rest as [|[k' v'] rest'].
-    - intros K. rewrite cscal, (RN cf_one), !(RN coeff_cons). cbn [Z.eqb]. rewrite (Z.eqb_sym 0 K).
-      destruct (Z.eqb K 0); [ring | rewrite (RN coeff_nil); ring].
+    - intros K. rewrite cscal, (RN cf_one), !(RN coeff_cons), (RN coeff_nil). rewrite (Z.eqb_sym 0 K).
+      change (Z.eqb 0 0) with true. cbv iota. destruct (Z.eqb K 0); ring.
     - exfalso. cbn [map fst forallb] in Hrest. apply andb_true_iff in Hrest. destruct Hrest as [Hk' _].
       apply Z.eqb_eq, Bits.popcount_eq_0 in Hk'. subst k'. cbn [keys map fst] in Hnd.
       inversion Hnd as [|? ? Hn _]. apply Hn. left. reflexivity.
@@ -1105,7 +1108,7 @@ Section Series.
     - destruct (tf (exp_branch (classify (cf 0 ll)))) as [[fsqrt fcosh] fsinhc].
       inversion He; subst r. split; [auto with wfdb|].
       apply eqv; auto with wfdb. intros K HK. rewrite cf_E, cadd by auto with wfdb.
-      rewrite (RA gp_scalar_r _ x Hx K), cscal. unfold scalar_mv. rewrite (RN cf_scalar), (RN cf_one).
+      unfold scalar_mv. rewrite (RA gp_scalar_r _ x Hx K), cscal. rewrite (RN cf_scalar), (RN cf_one).
       destruct (Z.eqb K 0); ring.
   Qed.
   (* NotImplementedError is raised exactly when the filtered square stores a non-scalar blade ... *)
